@@ -41,6 +41,9 @@ def events(tier):
     Ls = [300.0, 2000.0]
     Es = [1e-5, 1.0, 1e4] if tier == "quick" else [1e-5, 1e-2, 1.0, 1e2, 1e4]
     out = []
+    # decay altitudes below the range: rounding can make altDec slightly negative; the quantifier is "all event batches"
+    for b, a in itertools.product([math.radians(0.2), math.radians(0.5), math.radians(1.5), math.radians(10.0)], [-1e-13, -0.05, -1.0, -3.0]):
+        out.append((b, 1.0, a, math.radians(1.0), 1500.0, 1.0))
     for b, th, L, E in itertools.product(betas, thetas, Ls, Es):
         ls = [0.0, L * math.cos(th)]
         for a in (1e-9, 5.0, float(np.nextafter(10.0, 0)), 10.0, float(np.nextafter(10.0, 11)), 15.0):
